@@ -84,7 +84,6 @@ type VC struct {
 	nfresh    int
 	heapInfo  map[string]*HeapInfo // all heaps known (grows across passes)
 	newHeaps  bool
-	letPending int // uses of let names whose sort was not yet known in this pass
 	warnings  []string
 	trusted   map[string]bool // extern / iface / opaque contracts used
 	assumes   map[string]bool // assumptions used
